@@ -94,7 +94,7 @@ __CPROVER_requires(__CPROVER_is_fresh(self, sizeof(*self)))
 __CPROVER_assigns()
 __CPROVER_ensures(__CPROVER_return_value == self->retained)
 //@end
-//@harness h_DMP_truncate enforce=DensityMatrixPart_truncate props=C19 min_obl=100 reach=3 timeout=300
+//@harness h_DMP_truncate enforce=DensityMatrixPart_truncate props=C19 min_obl=219 reach=3 timeout=120
 void h_DMP_truncate(void)
 {
   struct DensityMatrixPart *p; double eps;
@@ -102,7 +102,7 @@ void h_DMP_truncate(void)
   if (g_last_read >= 0) REACH("exit_read"); else REACH("exit_empty");
   REACH("exit");
 }
-//@harness h_DMP_isRetained enforce=DensityMatrixPart_isRetained props=C19 min_obl=10 reach=1 timeout=120
+//@harness h_DMP_isRetained enforce=DensityMatrixPart_isRetained props=C19 min_obl=33 reach=1 timeout=120
 void h_DMP_isRetained(void) { struct DensityMatrixPart *p; DensityMatrixPart_isRetained(p); REACH("exit"); }
 
 /* =========================================================== DensityMatrixPart::computeUnnormalized  (C09)
@@ -138,7 +138,7 @@ __CPROVER_loop_invariant((g_gs >= 0 && (unsigned long)g_gs < s) ==> (self->weigh
 #endif
 __CPROVER_decreases(partSize - s)
 //@end
-//@harness h_DMP_computeUnnormalized enforce=DensityMatrixPart_computeUnnormalized props=C09 defs=-DVERIF_FP_IEEE,-DVERIF_FP_AXIOM min_obl=100 reach=2 timeout=600
+//@harness h_DMP_computeUnnormalized enforce=DensityMatrixPart_computeUnnormalized props=C09 defs=-DVERIF_FP_IEEE,-DVERIF_FP_AXIOM min_obl=545 reach=2 timeout=300
 void h_DMP_computeUnnormalized(void)
 {
   struct DensityMatrixPart *p;
@@ -174,7 +174,7 @@ __CPROVER_ensures(0.0 <= self->Z_part && self->Z_part <= __CPROVER_old(self->Z_p
 __CPROVER_ensures(g_q >= 0 ==> (0.0 <= self->weights.data[g_q] && self->weights.data[g_q] <= __CPROVER_old(self->weights.data[g_q]) && self->weights.data[g_q] <= 1.0))
 #endif
 //@end
-//@harness h_DMP_normalize enforce=DensityMatrixPart_normalize props=C09 defs=-DVERIF_FP_IEEE,-DVERIF_FP_AXIOM min_obl=50 reach=1 timeout=300
+//@harness h_DMP_normalize enforce=DensityMatrixPart_normalize props=C09 defs=-DVERIF_FP_IEEE,-DVERIF_FP_AXIOM min_obl=275 reach=1 timeout=300
 void h_DMP_normalize(void)
 {
   struct DensityMatrixPart *p; double Z;
@@ -269,7 +269,7 @@ __CPROVER_requires(self->parts.n <= PV_MAX && 0 <= in.number && (unsigned long)i
 __CPROVER_assigns(self->parts.cur, self->parts.last_pos)
 __CPROVER_ensures(__CPROVER_return_value == __CPROVER_uninterpreted_part_retained(in.number, g_n_calls))
 //@end
-//@harness h_DM_isRetained enforce=DensityMatrix_isRetained props=C19 min_obl=50 reach=1 timeout=120
+//@harness h_DM_isRetained enforce=DensityMatrix_isRetained props=C19 min_obl=85 reach=1 timeout=120
 void h_DM_isRetained(void) { struct DensityMatrix *dm; BlockNumber b; DensityMatrix_isRetained(dm, b); REACH("exit"); }
 
 /* ---- DensityMatrix::truncateBlocks(Tolerance, verbose): "Truncate such blocks that do not include any states having larger
@@ -294,7 +294,7 @@ __CPROVER_assigns(i.number, n_blocks_retained, n_states_retained, self->parts.cu
 __CPROVER_loop_invariant(0 <= i.number && i.number <= self->S->nblocks && 0 <= n_blocks_retained && n_blocks_retained <= i.number)
 __CPROVER_decreases(self->S->nblocks - i.number)
 //@end
-//@harness h_DM_truncateBlocks enforce=DensityMatrix_truncateBlocks props=C19 min_obl=200 reach=4 timeout=300
+//@harness h_DM_truncateBlocks enforce=DensityMatrix_truncateBlocks props=C19 min_obl=534 reach=4 timeout=120
 void h_DM_truncateBlocks(void)
 {
   struct DensityMatrix *dm; double eps; _Bool verbose;
@@ -379,10 +379,51 @@ __CPROVER_loop_invariant(iter.v == &self->parts && 0 <= iter.pos && iter.pos <= 
                          g_nz_last == iter.pos - 1 && g_n_nz == (unsigned long)iter.pos && g_nz_hits == ONCE(self->parts.gidx, iter.pos))
 __CPROVER_decreases((long)self->parts.n - iter.pos)
 //@end
-//@harness h_DM_compute enforce=DensityMatrix_compute props=C09 defs=-DVERIF_FP_IEEE min_obl=300 reach=4 timeout=600
+//@harness h_DM_compute enforce=DensityMatrix_compute props=C09 defs=-DVERIF_FP_IEEE min_obl=638 reach=4 timeout=300
 void h_DM_compute(void)
 {
   struct DensityMatrix *dm;
   DensityMatrix_compute(dm);
   if (g_n_cu == 0) REACH("exit_already_computed"); else REACH("exit_computed");
 }
+
+/* =====================================================================================================================
+ * WHAT IS PROVED (for all inputs satisfying the stated type invariants), WHAT IS NOT
+ *
+ * h_DMP_truncate (DensityMatrixPart::truncate, C19; default arithmetic: `>` on doubles is an uninterpreted predicate):
+ *   retained <==> some weight > Tolerance: "<==" for an arbitrary ghost state g_q, "==>" with the weight read last as witness;
+ *   only `retained` is written (frame); every weight access inside the vector; termination.
+ * h_DMP_isRetained: returns the flag.     h_DM_isRetained (DensityMatrix::isRetained): = parts[b]->isRetained() for 0 <= b < #parts
+ *   (b in range is a PRE-condition: operator[] is unchecked; the callers' obligation, see gf.c).
+ * h_DM_truncateBlocks: every part is truncated exactly once (ghost part), in order, with the tolerance given to truncateBlocks;
+ *   the verbose branch stays inside parts[] and the block table (needs the type invariant parts.size() == S.NumberOfBlocks()),
+ *   its counters cannot overflow; termination of both loops.
+ * h_DMP_computeUnnormalized (C09; bit-precise floats, '*' through stubs/fp_axiom.h, exp = contract): for beta > 0 finite, GroundEnergy
+ *   finite, every eigenvalue finite and >= GroundEnergy (ASSUMED type invariant, see Eigenvalues_at): every exponent handed to exp is a
+ *   number <= 0 (also when E - E_ground overflows to +inf); every weight in [0,1] (ghost state); 0 <= Z_part <= #states <= 10^6;
+ *   returned value = Z_part; in the block holding the ground state weight = 1 and Z_part >= 1; getEigenValue never throws (Status>=Computed).
+ * h_DMP_normalize: weights'(q) = weights(q)/Z, Z_part' = Z_part/Z (pins); for Z finite >= 1: weights'(q) in [0, weights(q)] subset [0,1],
+ *   Z_part' in [0, Z_part].  Eigen's `v /= c` is a stub (ASSUMED: coefficient-wise division, kept for the ghost coefficient).
+ * h_DM_compute: computeUnnormalized() on every part exactly once, then normalize(Z) on every part exactly once with Z = the left-fold
+ *   sum of the returned partial partition functions; Z is finite and >= 1 at every normalize() call (the ground state lies in some
+ *   block: ghost), which is the pre-condition under which h_DMP_normalize keeps the weights in [0,1]; Status = Computed; early return.
+ *   The two part functions are monitors here; mon_part_computeUnnormalized ASSUMES the post-condition proved in h_DMP_computeUnnormalized.
+ * NOT proved: sum of weights = 1, ratios exp(-beta dE) (accuracy statements); Z_part/Z <= 1 (needs a/b <= 1 for a <= b, not among the
+ *   proved division facts); DensityMatrix::prepare, getWeight, getAverage*; the eps-proportional deviation bound of C19.
+ *
+ * ASSUMPTIONS introduced here: exp contract (x <= 0 ==> 0 <= exp x <= 1, exp(0) = 1, exp >= 0); eigenvalues finite and >= GroundEnergy
+ *   (C03); Eigen `v /= c`; std::vector / StatesClassification stubs; the facts of stubs/fp_axiom.h (each proved by a lemma harness in gfterm.c).
+ *
+ * MUTANTS (scratch copy of /repo, re-extracted; obligation that failed)
+ *   computeUnnormalized: no ground-energy shift -> exp.assertion.2 (exponent <= 0), loop_invariant_step.2/.3
+ *                        exp(+beta*...)          -> exp.assertion.2, loop_invariant_step.2/.3/.4
+ *                        Z_part = w              -> loop_invariant_step.4 (Z_part >= 1 in the ground block)
+ *                        loop from s = 1         -> postcondition.3/.4, loop_invariant_base.2
+ *   normalize:           Z_part not divided      -> postcondition.1;   weights *= Z -> no model of operator*= (undecided, not a pass)
+ *   truncate:            `>` -> `<`              -> postcondition.2, loop_invariant_step.2;   loop from 1 -> postcondition.1, loop_invariant_base.2
+ *                        retained = true at entry -> postcondition.2, loop_invariant_base.2
+ *   truncateBlocks:      truncate(0)             -> mon_part_truncate.assertion.3;   BlockNumber i = -1 in the verbose loop -> PartVec_at.assertion.1, StatesClassification_getBlockSize.assertion.1, loop_invariant_base.2
+ *   DM::isRetained:      parts[in+1]             -> PartVec_at.assertion.1, postcondition.1
+ *   DM::compute:         normalize(1.0)          -> mon_part_normalize.assertion.3;   Z = instead of += -> loop invariant (accumulator != model)
+ *                        no Status update        -> postcondition.2;   no early return -> postcondition.1
+ */
